@@ -228,7 +228,7 @@ func measure(c *Case, keep bool) Rec {
 	for attempt := 0; ; attempt++ {
 		done := make(chan Rec, 1)
 		go func() { done <- measureOnce(c, keep) }()
-		budget := 40*time.Second + time.Duration(len(c.Body()))*20*time.Microsecond
+		budget := 20*time.Second + time.Duration(len(c.Body()))*20*time.Microsecond
 		select {
 		case r := <-done:
 			return r
